@@ -143,14 +143,35 @@ theorem insufficient_fails_given (r : Req) (l : List Utxo) (hi : r.inputs = .giv
     obtain ⟨ins, s, ch, h1, _, _, hfin⟩ := create_ok hc
     unfold stageInputs at h1
     rw [hi] at h1
-    cases h1
-    rw [(finalize_ok hfin).1] at hb
-    omega
+    simp only at h1
+    by_cases hn : decide (l.map (·.id)).Nodup = true
+    · rw [if_pos hn] at h1
+      cases h1
+      rw [(finalize_ok hfin).1] at hb
+      omega
+    · rw [if_neg hn] at h1; cases h1
+
+/-- T6b (explicit inputs): a created transaction never names the same outpoint twice. -/
+theorem create_inputs_given_distinct (r : Req) (c : Created) (l : List Utxo) (hi : r.inputs = .given l)
+    (h : create r = .ok c) : c.ins = l ∧ (l.map (·.id)).Nodup := by
+  obtain ⟨ins, s, ch, h1, _, _, hf⟩ := create_ok h
+  rw [(finalize_ok hf).1]
+  unfold stageInputs at h1
+  rw [hi] at h1
+  simp only at h1
+  by_cases hn : decide (l.map (·.id)).Nodup = true
+  · rw [if_pos hn] at h1; cases h1; exact ⟨rfl, by simpa using hn⟩
+  · rw [if_neg hn] at h1; cases h1
 
 theorem explicit_fee_not_reduced (r : Req) (l : List Utxo) (f : Nat) (hi : r.inputs = .given l)
     (hf : r.feeArg = .explicit f) (hlt : sumU l < amountOut r + f) : ∃ e, create r = .error e := by
   unfold create
-  have h1 : stageInputs r = .ok l := by unfold stageInputs; rw [hi]
+  by_cases hn : decide (l.map (·.id)).Nodup = true
+  case neg =>
+    have h1 : stageInputs r = .error Err.duplicateInput := by
+      unfold stageInputs; rw [hi]; simp only; rw [if_neg hn]
+    rw [h1]; exact ⟨_, rfl⟩
+  have h1 : stageInputs r = .ok l := by unfold stageInputs; rw [hi]; simp only; rw [if_pos hn]
   rw [h1]
   simp only
   have he : stageEstimate r = (f, none, some (f : Int)) := by unfold stageEstimate; rw [hf]
